@@ -18,6 +18,17 @@ def sites():
             names.add(m.group(1))
         for m in re.finditer(r"let\s+(?:mut\s+)?(\w+)\s*(?::\s*Hash(?:Map|Set)<[^=]*)?=\s*Hash(?:Map|Set)::", t):
             names.add(m.group(1))
+    # functions that return a hash container, and the bindings their results (or a `.collect::<HashSet<..>>()`) are given
+    fns = set()
+    for t in texts.values():
+        for m in re.finditer(r"\bfn\s+(\w+)\s*(?:<[^>]*>)?\s*\([^)]*\)\s*->\s*(?:\w+::)*Hash(?:Map|Set)<", t):
+            fns.add(m.group(1))
+    for t in texts.values():
+        if fns:
+            for m in re.finditer(r"let\s+(?:mut\s+)?(\w+)\s*(?::[^=]*)?=\s*(?:self\.|Self::)?(%s)\s*\(" % "|".join(sorted(fns)), t):
+                names.add(m.group(1))
+        for m in re.finditer(r"let\s+(?:mut\s+)?(\w+)\s*(?::[^=]*)?=[^;]*collect::<\s*Hash(?:Map|Set)\b", t):
+            names.add(m.group(1))
     out = []
     pat_for = re.compile(r"\bfor\b[^{;]*\bin\b[^{;]*\b(%s)\b" % "|".join(sorted(names))) if names else None
     pat_it = re.compile(r"\b(%s)\b\s*\.\s*(iter|iter_mut|values|values_mut|keys|into_iter|drain|into_values|into_keys)\s*\(" % "|".join(sorted(names))) if names else None
